@@ -116,6 +116,11 @@ class AsyncListener:
             and (now - _DUPLICATE_PACKET_SUPPRESSION_INTERVAL) < self.last_time
             and self.last_message is not None
             and not self.last_message.has_qu_question()
+            # The same bytes from another sender are not a duplicate: two legacy
+            # queriers asking the same question each wait for a reply of their own
+            and self.last_message.source is not None
+            and self.last_message.source[0] == addrs[0]
+            and self.last_message.source[1] == addrs[1]
         ):
             # Guard against duplicate packets
             if debug:
